@@ -1,8 +1,11 @@
 (** C02 (SSO part) -- SAML responses are only ever delivered to registered endpoints.
     Every reply of the SSO endpoint that is delivered to a URL (auto-submit form or redirect), and the pair persisted
     for an accepted request, is the (Location, Binding) of ONE AssertionConsumerService entry registered for the
-    service provider that storage returned for the request's Issuer.  Callback and logout: Properties/C02b.v. *)
-From Saml Require Import Base.Bytes Idp.FactTypes Gen.Facts Gen.Pure Core.Acs Idp.Sso Proofs.SsoProofs Proofs.SsoAccept.
+    service provider that storage returned for the request's Issuer.  The login callback delivers only to the consumer URL
+    stored with the request its id names (i.e. the pair the SSO endpoint persisted), the logout endpoint only to the first
+    SingleLogoutService location registered for the issuer. *)
+From Saml Require Import Base.Bytes Idp.FactTypes Gen.Facts Gen.Pure Core.Acs Idp.Sso Proofs.SsoProofs Proofs.SsoAccept
+  Idp.Callback Proofs.CallbackProofs Idp.Logout Proofs.LogoutProofs.
 
 Section C02.
 Variable e_form : option form.
@@ -45,7 +48,60 @@ Theorem C02_target_function : forall a s, can_req e_form decode = Some a -> can_
 Proof. intros a s Ea Es. unfold can_target. now rewrite Ea, Es. Qed.
 End C02.
 
+
+(** login callback: a reply delivered to a URL goes to the consumer URL, with the RelayState, stored under the request id *)
+Theorem C02_callback_target : forall form_ok form_id lookup_req app_entity userinfo cert_ok sign_ok d m,
+  In (CSaml d m) (cs_out (callback form_ok form_id lookup_req app_entity userinfo cert_ok sign_ok callback_seq loginResponse_seq)) ->
+  match d with
+  | CPost acs relay | CRedirect acs relay _ => exists rec, lookup_req form_id = Some rec /\ acs = sr_acs rec /\ relay = sr_relay rec /\ acs <> []
+  | CBody => True
+  end.
+Proof.
+  intros form_ok form_id lookup_req app_entity userinfo cert_ok sign_ok d m Hin.
+  pose proof (callback_table form_ok form_id lookup_req app_entity userinfo cert_ok sign_ok) as T.
+  unfold expected in T. destruct T as [_ T].
+  destruct form_ok; cbn [negb] in T; [|destruct T as [T _]; rewrite T in Hin; destruct Hin as [[=]|[]]].
+  destruct (is_empty form_id) eqn:Eid; [destruct T as [T _]; rewrite T in Hin; destruct Hin as [[=]|[]]|].
+  destruct (lookup_req form_id) as [rec|] eqn:El.
+  2:{ destruct T as [_ T]. rewrite T in Hin. destruct Hin as [E|[]]. inversion E; subst. exact I. }
+  destruct (app_entity (sr_app rec)) as [ent|]; [|destruct T as [T _]; rewrite T in Hin; destruct Hin as [[=]|[]]].
+  assert (D : forall resp, In (CSaml d m) [deliver (sr_acs rec) (sr_binding rec) (sr_relay rec)
+             {| m_in_response_to := sr_reqid rec; m_destination := sr_acs rec; m_audience := ent; m_resp := resp |}] ->
+             match d with CPost acs relay | CRedirect acs relay _ => acs = sr_acs rec /\ relay = sr_relay rec /\ acs <> [] | CBody => True end).
+  { intros resp [E|[]]. unfold deliver in E. destruct (is_empty (sr_acs rec)) eqn:Ea; [inversion E; subst; exact I|].
+    assert (N : sr_acs rec <> []) by (destruct (sr_acs rec); [discriminate Ea|discriminate]).
+    destruct (beq (sr_binding rec) c_PostBinding); [inversion E; subst; split; [reflexivity|split; [reflexivity|exact N]]|].
+    destruct (beq (sr_binding rec) c_RedirectBinding); [inversion E; subst; split; [reflexivity|split; [reflexivity|exact N]]|discriminate E]. }
+  assert (K : match d with CPost acs relay | CRedirect acs relay _ => acs = sr_acs rec /\ relay = sr_relay rec /\ acs <> [] | CBody => True end).
+  { destruct (negb (sr_done rec)); [destruct T as [T _]; rewrite T in Hin; exact (D _ Hin)|].
+    destruct (userinfo (sr_app rec) (sr_user rec)); [|destruct T as [T _]; rewrite T in Hin; exact (D _ Hin)].
+    destruct (negb cert_ok); [destruct T as [T _]; rewrite T in Hin; exact (D _ Hin)|].
+    destruct (negb sign_ok); destruct T as [T _]; rewrite T in Hin; exact (D _ Hin). }
+  clear Hin T. destruct d as [|acs relay|acs relay det]; [exact I| |]; destruct K as (K1 & K2 & K3); exists rec; (split; [reflexivity|split; [exact K1|split; [exact K2|exact K3]]]).
+Qed.
+
+(** logout: a LogoutResponse delivered to a URL goes to the first SingleLogoutService location of the provider registered
+    under the request's Issuer; no request parameter can name another target *)
+Theorem C02_logout_target : forall e_form decode lookup instant_of now entity_id st out url relay m,
+  logout_handler e_form decode lookup instant_of now entity_id logout_steps = LDone st out -> In (LPost url relay m) out ->
+  exists f q i sp, e_form = Some f /\ decode (lf_enc f) (lf_req f) = Some q /\ lq_issuer q = Some i /\ lookup i = Some sp /\
+                   hd_error (sp_slo sp) = Some url /\ relay = lf_relay f.
+Proof.
+  intros e_form decode lookup instant_of now entity_id st out url relay m H Hin.
+  pose proof (logout_table e_form decode lookup instant_of now entity_id) as T. unfold logout_expected in T. rewrite H in T. clear H.
+  destruct e_form as [f|]; [|inversion T; subst; destruct Hin as [E|[]]; discriminate E].
+  destruct (decode (lf_enc f) (lf_req f)) as [q|] eqn:Ed; [|destruct T as [s0 T]; inversion T; subst; destruct Hin as [E|[]]; discriminate E].
+  destruct (negb _); [destruct T as [s0 T]; inversion T; subst; destruct Hin as [E|[]]; discriminate E|].
+  destruct (lq_issuer q) as [i|] eqn:Ei; [|destruct T as [s0 T]; inversion T; subst; destruct Hin as [E|[]]; discriminate E].
+  destruct (lookup i) as [sp|] eqn:El; [|destruct T as [s0 T]; inversion T; subst; destruct Hin as [E|[]]; discriminate E].
+  destruct T as [s0 T]. inversion T; subst. destruct Hin as [E|[]].
+  destruct (sp_slo sp) as [|u r] eqn:Es; [discriminate E|]. destruct (is_empty u); [discriminate E|]. inversion E; subst.
+  exists f, q, i, sp. rewrite Es. split; [reflexivity|split; [exact Ed|split; [exact Ei|split; [exact El|split; reflexivity]]]].
+Qed.
+
 Print Assumptions C02_sso_reply_target.
 Print Assumptions C02_target_registered.
 Print Assumptions C02_persisted_pair.
 Print Assumptions C02_target_function.
+Print Assumptions C02_callback_target.
+Print Assumptions C02_logout_target.
